@@ -170,6 +170,7 @@ type vDecOpts struct {
 	seq         bool
 	escape      bool
 	textKey     string
+	cast        func(s string, key string) interface{} // nil: leaves stay strings
 }
 
 func refFoldKey(k string, o vDecOpts) string {
@@ -257,7 +258,11 @@ func refDecodeElem(e *vXElem, o vDecOpts) (key string, val interface{}, outside 
 				outside = true
 			}
 		}
-		entries = append(entries, vKV{k, v})
+		if o.cast != nil {
+			entries = append(entries, vKV{k, o.cast(v, k)})
+		} else {
+			entries = append(entries, vKV{k, v})
+		}
 	}
 	text := ""
 	runs := 0
@@ -292,14 +297,24 @@ func refDecodeElem(e *vXElem, o vDecOpts) (key string, val interface{}, outside 
 	if o.escape {
 		text = refEscape(text)
 	}
+	var textVal interface{} = text
 	if len(entries) == 0 {
 		if text == "" {
 			return key, "", outside
 		}
 		if o.simpleAsMap {
-			return key, map[string]interface{}{o.textKey: text}, outside
+			if o.cast != nil {
+				textVal = o.cast(text, o.textKey)
+			}
+			return key, map[string]interface{}{o.textKey: textVal}, outside
 		}
-		return key, text, outside
+		if o.cast != nil {
+			textVal = o.cast(text, key)
+		}
+		return key, textVal, outside
+	}
+	if o.cast != nil {
+		textVal = o.cast(text, o.textKey)
 	}
 	m := map[string]interface{}{}
 	for _, p := range entries {
@@ -317,7 +332,7 @@ func refDecodeElem(e *vXElem, o vDecOpts) (key string, val interface{}, outside 
 		if _, clash := m[o.textKey]; clash {
 			outside = true
 		}
-		m[o.textKey] = text
+		m[o.textKey] = textVal
 	}
 	return key, m, outside
 }
